@@ -1,7 +1,7 @@
 (** Executable instantiation of the expansion model with Gallina models of the
     deterministic data sources (snoopy_literal, env, filename, cmdline, failure, noop),
     used by the correspondence run; and the boolean form of the C05 specification. *)
-From Snoopy Require Import Lib.CStr Expand.Model Datasource.Cmdline.
+From Snoopy Require Import Lib.CStr Expand.Model Expand.Proofs Expand.Errors Datasource.Cmdline.
 From Coq Require Import Strings.String.
 Local Open Scope N_scope.
 
@@ -68,3 +68,7 @@ Definition spec_C05_ok (c : expand_consts) (known : list byte -> bool) (ds : lis
 
 Definition spec_det (c : expand_consts) (dc : ds_consts) (cc : cmdline_consts) (w : world) (bufsize third : N) (fmt out : list byte) : bool :=
   spec_C05_ok c known_det (ds_det dc cc w) bufsize third fmt out.
+
+(** number of error-handler calls (refused appends) of one generateFromFormat call, for the correspondence of C04's error records *)
+Definition errors_det (c : expand_consts) (dc : ds_consts) (cc : cmdline_consts) (w : world) (bufsize third : N) (fmt : list byte) : nat :=
+  generate_errors c known_det (ds_det dc cc w) bufsize third fmt.
